@@ -684,6 +684,60 @@ func c04E2(ctx *core.Ctx, rep *core.Report, mocks []*lcMock) {
 			}
 		}
 	}
+	// ---- the same OBJECT, edited across a scope boundary between two lint runs -------------------------------
+	// A parsed certificate is a plain struct; callers that lint what they are about to issue edit it and lint again.
+	// For every ordered pair (A, B) of scope situations: parse A, lint it, overwrite the object's contents with B's
+	// (same pointer, nothing else linted in between), lint again: the gates must answer for B.
+	situations := []scopeFacts{
+		{ekus: []string{"serverAuth"}, emailSAN: "none"},
+		{ekus: []string{"emailProtection"}, emailSAN: "a@b"},
+		{ekus: []string{"codeSigning"}, policies: []string{"2.23.140.1.4.1"}, emailSAN: "none"},
+		{ekus: []string{"clientAuth"}, emailSAN: "none"},
+		{ekus: []string{"any"}, emailSAN: "a@b"},
+		{ekus: nil, emailSAN: "none"},
+		{ekus: []string{"clientAuth"}, policies: []string{"2.23.140.1.5.1.1"}, emailSAN: "none"},
+	}
+	for _, fa := range situations {
+		for _, fb := range situations {
+			oa, err1 := zl.Parse(seeds.Cert, scopeCert(fa, date(2024, 1, 1)))
+			bDER := scopeCert(fb, date(2024, 1, 1))
+			ob, err2 := zl.Parse(seeds.Cert, bDER)
+			if err1 != nil || err2 != nil {
+				continue
+			}
+			if _, p := zl.Lint(oa, reg); p != nil {
+				continue
+			}
+			*oa.Cert = *ob.Cert
+			rs, p := zl.Lint(oa, reg)
+			rep.Inc("states")
+			rep.Add("transitions", 2)
+			rep.Inc("scope_object_edit_sequences")
+			if p != nil || rs == nil {
+				continue
+			}
+			desc := fmt.Sprintf("object first linted as EKU=%v policies=%v emailSAN=%s, then overwritten in place with EKU=%v policies=%v emailSAN=%s and linted again",
+				fa.ekus, fa.policies, fa.emailSAN, fb.ekus, fb.policies, fb.emailSAN)
+			art := map[string]interface{}{"op": "scope_object_edit", "facts": desc, "second_der_hex": hex.EncodeToString(bDER)}
+			for _, s := range gated {
+				in := refScope(s, fb)
+				rep.Inc("validated")
+				if r := rs.Results[mockFor[s]]; r != nil {
+					if in && r.Status != lint.Error {
+						rep.Violate("C04|scope_after_edit|"+string(s)+"|in_scope_not_run", fmt.Sprintf("the object is now in the scope of %s but an always-applicable %s lint returned %s [%s]", s, s, r.Status, desc), art)
+					}
+					if !in && r.Status != lint.NA {
+						rep.Violate("C04|scope_after_edit|"+string(s)+"|out_of_scope_run", fmt.Sprintf("the object is now outside the scope of %s but a %s lint returned %s instead of NA [%s]", s, s, r.Status, desc), art)
+					}
+				}
+			}
+			for _, n := range realNames {
+				if r := rs.Results[n]; r != nil && !refScope(realSrc[n], fb) && r.Status != lint.NA {
+					rep.Violate("C04|scope_after_edit|"+string(realSrc[n])+"|out_of_scope_run", fmt.Sprintf("%s (source %s) returned %s on an object that is now outside that document's scope [%s]", n, realSrc[n], r.Status, desc), art)
+				}
+			}
+		}
+	}
 }
 
 func sortStrings(s []string) {
